@@ -181,7 +181,7 @@ FAMILIES = [
     ("badspec", re.compile(r"Not a valid subclass of \w+\. Got value: (.*?)\n\s*Subclass types expect", re.S)),
     ("badspec", re.compile(r"Not a valid subclass of \w+\n.*?Given value: ((?:OrderedDict\(|defaultdict\([^{]*)?\{.*?)$", re.S | re.M)),
     ("missing", re.compile(r'Key "([^"]*)" is required but not included in config object or its value is None')),
-    ("nosub", re.compile(r'expected "([^"]*)" to be one of .*?, but it was not provided')),
+    ("nosub", re.compile(r'expected "([^"]*)" to be one of .*?, but (?:it was not provided|got \'zz\')')),
 ]
 
 
@@ -259,6 +259,18 @@ def one(case):
     except Exception as e:  # the generated parser itself is not constructible: harness bug
         return {"r": "other", "what": "BUILD %s: %s" % (type(e).__name__, str(e)[:200])}
     cfg = case["cfg"]
+    # declared List[...] keys given in the append spelling "<key>+" (same configuration otherwise)
+    if case.get("append"):
+        cfg = copy.deepcopy(cfg)
+        for path in case["append"]:
+            node = cfg
+            for k in path[:-1]:
+                node = node.get(k) if isinstance(node, dict) else None
+            node = node if isinstance(node, dict) else {}
+            if path[-1] in node:
+                items = list(node.items())
+                node.clear()
+                node.update((k + "+" if k == path[-1] else k, v) for k, v in items)
     ch = case["channel"]
     # parse history: earlier parses on the same parser object (their outcome does not matter)
     for wc in case.get("warm") or []:
@@ -286,6 +298,17 @@ def one(case):
                 return {"r": "other", "what": "leftover argv: " + str(e)[:160]}
         except BaseException as e:
             return {"r": "other", "what": "leftover argv: %s: %s" % (type(e).__name__, str(e)[:120])}
+        # ... also a leftover token that does not look like an option (parsers with subcommands would read it as the
+        # subcommand name: not tried there)
+        if not case["parser"].get("sub"):
+            try:
+                p.parse_args(["--cfg=" + json.dumps(cfg), "zz"])
+                return {"r": "other", "what": "leftover argv zz accepted"}
+            except ArgumentError as e:
+                if "Unrecognized arguments: zz" not in str(e):
+                    return {"r": "other", "what": "leftover argv: " + str(e)[:160]}
+            except BaseException as e:
+                return {"r": "other", "what": "leftover argv: %s: %s" % (type(e).__name__, str(e)[:120])}
     try:
         with warnings.catch_warnings(), contextlib.ExitStack() as stack:
             warnings.simplefilter("ignore")
